@@ -486,3 +486,112 @@ def combine_fcn(ctx):
     for k in range(2):
         want = tm.add(tm.mul(_d(_d(total, th, k), th, 0), p[0]), tm.mul(_d(_d(total, th, k), th, 1), p[1]))
         ctx.eq("get_grad_hessp.hessp[%d]" % k, _S(ctx, _el(hp4[k])), _S(ctx, want), clause="Hessian-vector product of the sum == sum of the parts' products")
+
+
+# ------------------------------------------------------------------ C06: the value formula
+def _mk_nll_value(n_data, n_mc, extended):
+    def g(ctx):
+        tf = ctx.tf
+        model = ctx.mod("model.model")
+        w = ctx.real("w", (n_data,), lambda r: [r.choice([-1, 1]) * r.uniform(0.2, 2) for _ in range(n_data)])
+        v = ctx.real("v", (n_mc,), lambda r: [r.uniform(0.2, 2) for _ in range(n_mc)])
+        fd = ctx.real("fd", (n_data,), lambda r: [r.uniform(0.1, 3) for _ in range(n_data)])
+        fm = ctx.real("fm", (n_mc,), lambda r: [r.uniform(0.1, 3) for _ in range(n_mc)])
+        ctx.require(fd > 1e-6, "densities above the clip of clip_log")
+        ctx.require(fm > 0.0)
+        ctx.require(v > 0.0)
+        ctx.require(tf.reduce_sum(w) > 0.0)
+        for i in range(n_data):
+            ctx.require(tf.abs(w[i]) > 0.0)
+        data = {"weight": w, "_tag": "data"}
+        mc = {"weight": v, "_tag": "mc"}
+
+        class Sig:
+            vm = None
+            trainable_variables = []
+
+            def __call__(self, d):
+                return fd if d["_tag"] == "data" else fm
+
+        bm = model.BaseModel(Sig(), resolution_size=1, extended=extended)
+        nll = bm.nll(data, mc)
+        sw = tf.reduce_sum(w)
+        alpha = sw / tf.reduce_sum(w * w)
+        integ = tf.reduce_sum(v * fm) / tf.reduce_sum(v)
+        spec = -alpha * (tf.reduce_sum(w * tf.math.log(fd)) - sw * (integ if extended else tf.math.log(integ)))
+        ctx.eq("value", nll, spec, clause="BaseModel.nll == -alpha [sum_i w_i ln f(x_i) - (sum_i w_i) %s(sum_j v_j f(y_j)/sum_j v_j)], alpha = sum w/sum w^2"
+               % ("" if extended else "ln"))
+
+    return g
+
+
+for _nd in (1, 2, 3):
+    for _nm in (1, 3):
+        for _ext in (False, True):
+            group(["C06"], "model.BaseModel.nll/value/n=%d,m=%d,%s" % (_nd, _nm, "extended" if _ext else "default"),
+                  ["model.model:BaseModel.nll", "model.model:clip_log", "model.model:BaseModel.sum_resolution"], no_native=True,
+                  bound="tensor lengths n_data=%d, n_mc=%d (reduce_sum mixes the batch axis: proof is per length)" % (_nd, _nm))(_mk_nll_value(_nd, _nm, _ext))
+
+
+@group(["C06"], "model.clip_log", ["model.model:clip_log"], no_native=True)
+def clip_log_contract(ctx):
+    tf = ctx.tf
+    model = ctx.mod("model.model")
+    x = ctx.real("x", (1,), lambda r: [r.uniform(1e-5, 3)])
+    ctx.require(x > 1e-6)
+    ctx.eq("log_branch", model.clip_log(x), tf.math.log(x), clause="clip_log(x) == ln x for x > 1e-6")
+
+
+def _mk_model_blend(n_d, n_b, bg_has_weight):
+    def g(ctx):
+        tf = ctx.tf
+        model = ctx.mod("model.model")
+        w = ctx.real("w", (n_d,), lambda r: [r.uniform(0.5, 2) for _ in range(n_d)])
+        fd = ctx.real("fd", (n_d,), lambda r: [r.uniform(0.1, 3) for _ in range(n_d)])
+        fb = ctx.real("fb", (n_b,), lambda r: [r.uniform(0.1, 3) for _ in range(n_b)])
+        fm = ctx.real("fm", (2,), lambda r: [r.uniform(0.1, 3) for _ in range(2)])
+        wb = ctx.real("w_bkg", (), lambda r: r.uniform(0.01, 0.3))
+        bw = ctx.real("bgw", (n_b,), lambda r: [-r.uniform(0.01, 0.3) for _ in range(n_b)])
+        for t in (fd, fb):
+            ctx.require(t > 1e-6)
+        ctx.require(fm > 0.0)
+        ctx.require(wb > 0.0)
+        for i in range(n_d):
+            ctx.require(w[i] > 0.0)
+        data = {"f": fd, "weight": w}
+        bg = {"f": fb}
+        if bg_has_weight:
+            bg["weight"] = bw
+            for i in range(n_b):
+                ctx.require(bw[i] < 0.0)
+        mc = {"f": fm}
+
+        class Amp:
+            vm = None
+            trainable_variables = []
+
+            def __call__(self, d):
+                return d["f"]
+
+        m = model.Model(Amp(), w_bkg=wb)
+        dd, ww = m.get_weight_data(data, bg=bg)
+        blend = tf.concat([w, bw if bg_has_weight else tf.ones((n_b,), dtype=tf.float64) * (-wb)], axis=0)
+        sw = tf.reduce_sum(blend)
+        ctx.require(sw > 0.0, "net signal weight positive")
+        alpha = sw / tf.reduce_sum(blend * blend)
+        ctx.eq("weights", ww, alpha * blend, clause="get_weight_data: weights == alpha * (w ++ (-w_bkg or bg weights)), alpha = sum/sum of squares of the BLENDED vector")
+        ctx.eq("data", dd["f"], tf.concat([fd, fb], axis=0), clause="get_weight_data: every data leaf == data ++ bg")
+        nll = m.nll(data, mc, weight=w, bg=bg, mc_weight=1.0)
+        fall = tf.concat([fd, fb], axis=0)
+        integ = tf.reduce_sum(fm) / 2.0
+        spec = -alpha * (tf.reduce_sum(blend * tf.math.log(fall)) - sw * tf.math.log(integ))
+        ctx.eq("nll", nll, spec, clause="Model.nll == -alpha[sum_i w_i ln f(x_i) - (sum_i w_i) ln <f>_mc] with background rows weighted -w_bkg (alpha applied ONCE)")
+
+    return g
+
+
+for _nd, _nb in ((2, 1), (2, 2), (3, 2)):
+    for _bw in (False, True):
+        group(["C06"], "model.Model/blend_and_nll/n=%d,b=%d,%s" % (_nd, _nb, "bgweights" if _bw else "w_bkg"),
+              ["model.model:Model.get_weight_data", "model.model:Model.nll", "model.model:BaseModel.nll", "data:data_merge"], no_native=True,
+              bound="tensor lengths n_data=%d, n_bg=%d, n_mc=2" % (_nd, _nb))(_mk_model_blend(_nd, _nb, _bw))
